@@ -582,6 +582,13 @@ void abt_verif_atomic(int kind, int width, const volatile void *addr, uint64_t a
     char n1[64], u[64];
     fprintf(logf, "A %d %s %s %s %lld %lld %lld\n", self->id, unit_name(u, sizeof u), OPN[kind], vs_addr_name((const void *)addr, n1, sizeof n1),
             (long long)cur, (long long)a, (long long)b);
+    if (e && (e->flags & VS_SNAP) && !is_load) {
+        fprintf(logf, "P %s ", e->name);
+        size_t n = e->size > 160 ? 160 : e->size;
+        for (size_t i = 0; i < n; i++)
+            fprintf(logf, "%02x", (unsigned)(unsigned char)e->base[i]);
+        fputc('\n', logf);
+    }
 }
 
 void abt_verif_event(int kind, const void *p1, const void *p2, long v)
